@@ -37,28 +37,43 @@ type TableHeader struct {
 }
 
 func PointerField(psi []byte) uint8 {
+	if len(psi) == 0 {
+		return 0
+	}
 	return psi[0]
 }
 
 // TableID returns the psi table header table id
 func TableID(psi []byte) uint8 {
-	return tableID(psi[1+PointerField(psi):])
+	offset := 1 + int(PointerField(psi))
+	if offset >= len(psi) {
+		return 0
+	}
+	return tableID(psi[offset:])
 }
 
 // SectionSyntaxIndicator returns true if the psi contains section syntax
 func SectionSyntaxIndicator(psi []byte) bool {
-	return sectionSyntaxIndicator(psi[1+PointerField(psi):])
+	offset := 1 + int(PointerField(psi))
+	if offset+1 >= len(psi) {
+		return false
+	}
+	return sectionSyntaxIndicator(psi[offset:])
 }
 
 // PrivateIndicator returns true if the psi contains private data
 func PrivateIndicator(psi []byte) bool {
-	return psi[2+PointerField(psi)]&0x40 != 0
+	offset := 2 + int(PointerField(psi))
+	if offset >= len(psi) {
+		return false
+	}
+	return psi[offset]&0x40 != 0
 }
 
 // SectionLength returns the psi section length
 func SectionLength(psi []byte) uint16 {
-	offset := int(1 + PointerField(psi))
-	if offset >= len(psi) {
+	offset := 1 + int(PointerField(psi))
+	if offset+2 >= len(psi) {
 		return 0
 	}
 	return sectionLength(psi[offset:])
